@@ -180,7 +180,6 @@ type schemaGen struct {
 	objTs  []reflect.Type // struct types usable as object results
 	unions []reflect.Type
 	names  map[reflect.Type]string
-	nfn    int
 }
 
 func hash64(s string) uint64 {
@@ -444,8 +443,9 @@ func newSchemaInst(idx int, r *rand.Rand) *schemaInst {
 // addFunc invents one field func on o.
 func (g *schemaGen) addFunc(o *objSpec, wantComposite bool) {
 	r := g.r
-	f := &funcSpec{owner: o, name: fmt.Sprintf("fn%d", g.nfn)}
-	g.nfn++
+	// names are numbered per owner, so different objects have same-named fields
+	// of different types (needed by the shared-fragment damage)
+	f := &funcSpec{owner: o, name: fmt.Sprintf("fn%d", len(o.funcs))}
 	f.hash = hash64(o.name + "." + f.name)
 	f.hasCtx = r.Intn(3) == 0
 	f.hasSel = r.Intn(6) == 0
